@@ -661,13 +661,44 @@ func BranchFailsClean(iff *ssa.If, pol bool, effect func(ssa.Instruction) bool) 
 	if pol {
 		start = b.Succs[0]
 	}
-	seen := map[*ssa.BasicBlock]bool{}
-	var walk func(x *ssa.BasicBlock) bool
-	walk = func(x *ssa.BasicBlock) bool {
-		if seen[x] {
+	// what the branch taken tells about a nil-tested value: `v != nil` / `v == nil` with the polarity of the branch
+	nilTest := func(c ssa.Value) (ssa.Value, bool, bool) { // value, "true means non-nil", ok
+		neg := false
+		for {
+			if u, ok := c.(*ssa.UnOp); ok && u.Op == token.NOT {
+				c, neg = u.X, !neg
+				continue
+			}
+			break
+		}
+		bo, ok := c.(*ssa.BinOp)
+		if !ok || (bo.Op != token.NEQ && bo.Op != token.EQL) {
+			return nil, false, false
+		}
+		var v ssa.Value
+		switch {
+		case isNilConst(bo.Y):
+			v = bo.X
+		case isNilConst(bo.X):
+			v = bo.Y
+		default:
+			return nil, false, false
+		}
+		return v, (bo.Op == token.NEQ) != neg, true
+	}
+	var known ssa.Value
+	knownNonNil := false
+	if v, trueMeansNonNil, ok := nilTest(iff.Cond); ok {
+		known, knownNonNil = v, trueMeansNonNil == pol
+	}
+	type key struct{ x, from *ssa.BasicBlock }
+	seen := map[key]bool{}
+	var walk func(x, from *ssa.BasicBlock) bool
+	walk = func(x, from *ssa.BasicBlock) bool {
+		if seen[key{x, from}] {
 			return true
 		}
-		seen[x] = true
+		seen[key{x, from}] = true
 		for _, in := range x.Instrs {
 			if effect != nil && effect(in) {
 				return false
@@ -677,23 +708,68 @@ func BranchFailsClean(iff *ssa.If, pol bool, effect func(ssa.Instruction) bool) 
 				return IsFailureReturn(t)
 			case *ssa.Panic:
 				return true
+			case *ssa.If:
+				// the same value (possibly merged into a phi of this block, coming through the edge we arrived by) is
+				// tested again: only the consistent branch is feasible (`err = f(); if err == nil { err = g() }; if err != nil`)
+				if known != nil {
+					if w, trueMeansNonNil, ok := nilTest(t.Cond); ok {
+						if ph, isPhi := w.(*ssa.Phi); isPhi && ph.Block() == x && from != nil {
+							for k, p := range x.Preds {
+								if p == from {
+									w = ph.Edges[k]
+								}
+							}
+						}
+						if w == known {
+							nb := x.Succs[1]
+							if trueMeansNonNil == knownNonNil {
+								nb = x.Succs[0]
+							}
+							return walk(nb, x)
+						}
+					}
+				}
 			}
 		}
 		if len(x.Succs) == 0 {
 			return false
 		}
 		for _, s := range x.Succs {
-			if !walk(s) {
+			if !walk(s, x) {
 				return false
 			}
 		}
 		return true
 	}
-	return walk(start)
+	return walk(start, b)
 }
 
 // guardedNonNil: instruction `at` is dominated by `v != nil`.
 func guardedNonNil(v ssa.Value, at ssa.Instruction) bool {
+	// a merge of values each of which is non-nil on the edge it arrives by (`err = f(); if err == nil { err = g() … }`
+	// falling through to one `return wrap(err)`)
+	if ph, ok := v.(*ssa.Phi); ok && len(ph.Block().Preds) == len(ph.Edges) {
+		all := len(ph.Edges) > 0
+		for k, ed := range ph.Edges {
+			p := ph.Block().Preds[k]
+			if len(p.Instrs) == 0 {
+				all = false
+				break
+			}
+			last := p.Instrs[len(p.Instrs)-1]
+			if _, isPhi := ed.(*ssa.Phi); isPhi && ed == v {
+				all = false
+				break
+			}
+			if !(definitelyNonNilErr(ed) || guardedNonNilEdge(ed, p, ph.Block()) || guardedNonNil(ed, last)) {
+				all = false
+				break
+			}
+		}
+		if all {
+			return true
+		}
+	}
 	for _, g := range GuardsOf(at) {
 		if b, ok := g.Cond.(*ssa.BinOp); ok {
 			if (b.X == v && isNilConst(b.Y)) || (b.Y == v && isNilConst(b.X)) {
@@ -702,6 +778,31 @@ func guardedNonNil(v ssa.Value, at ssa.Instruction) bool {
 				}
 			}
 		}
+	}
+	return false
+}
+
+// guardedNonNilEdge: the edge p -> succ is the non-nil branch of a nil test of v that ends p.
+func guardedNonNilEdge(v ssa.Value, p, succ *ssa.BasicBlock) bool {
+	if len(p.Instrs) == 0 || len(p.Succs) != 2 {
+		return false
+	}
+	iff, ok := p.Instrs[len(p.Instrs)-1].(*ssa.If)
+	if !ok {
+		return false
+	}
+	b, ok := iff.Cond.(*ssa.BinOp)
+	if !ok || !((b.X == v && isNilConst(b.Y)) || (b.Y == v && isNilConst(b.X))) {
+		return false
+	}
+	if p.Succs[0] == p.Succs[1] {
+		return false
+	}
+	if b.Op == token.NEQ {
+		return p.Succs[0] == succ
+	}
+	if b.Op == token.EQL {
+		return p.Succs[1] == succ
 	}
 	return false
 }
@@ -1193,6 +1294,55 @@ func dominatesF(a, b ssa.Instruction, depth int) bool {
 		}
 		if all {
 			return true
+		}
+	}
+	// the same SSA condition tested twice (`found := err == nil; if found { a } … if found { b }`): b runs only when the
+	// condition holds, so every feasible path to b took the same branch of the earlier test; if a lies on every path from
+	// that branch to b, a runs before b
+	for _, g := range plainGuardsOfBlock(b.Block()) {
+		for d := b.Block().Idom(); d != nil; d = d.Idom() {
+			if len(d.Instrs) == 0 {
+				continue
+			}
+			iff, ok := d.Instrs[len(d.Instrs)-1].(*ssa.If)
+			if !ok || iff == g.If || iff.Cond != g.Cond || len(d.Succs) != 2 {
+				continue
+			}
+			start := d.Succs[1]
+			if g.Pol {
+				start = d.Succs[0]
+			}
+			// breadth-first from that branch to b, not passing a
+			seen := map[*ssa.BasicBlock]bool{start: true}
+			q := []*ssa.BasicBlock{start}
+			reached := false
+			for len(q) > 0 && !reached {
+				x := q[0]
+				q = q[1:]
+				blocked := false
+				for _, in := range x.Instrs {
+					if in == a {
+						blocked = true
+						break
+					}
+					if in == b {
+						reached = true
+						break
+					}
+				}
+				if blocked || reached {
+					continue
+				}
+				for _, nx := range x.Succs {
+					if !seen[nx] {
+						seen[nx] = true
+						q = append(q, nx)
+					}
+				}
+			}
+			if !reached {
+				return true
+			}
 		}
 	}
 	return false
